@@ -26,7 +26,7 @@ StrDocs == [i \in DOMAIN Strings |-> JStr(Strings[i])]
 \* documents for the hostile pattern texts: matching and near-miss strings over the wider character set
 HostStrings == << <<"qt", "a", "qt">>, <<"a", "bt", "b">>, <<"a", "b">>, <<"a", "sp">>, <<"a", "nl">>, <<"sp">>, <<"a", "b", "sp", "sp">>,
                   <<>>, <<"qt", "a">>, <<"a", "bt", "b", "b">>, <<"bt">>, <<"a", "pc", "b">>, <<"bs">>, <<"a", "us", "d1">>, <<"a", "e2">>,
-                  <<"qt", "a", "qt", "nl">> >>
+                  <<"qt", "a", "qt", "nl">>, <<"a", "sp", "b">>, <<"sp", "b">>, <<"a", "tb">>, <<"a", "b", "sp", "b">>, <<"a", "tb", "sp">> >>
 HostDocs == [i \in DOMAIN HostStrings |-> JStr(HostStrings[i])]
 
 Unit(pos_, pat_, mn, mx) ==
